@@ -152,7 +152,8 @@ ScrollFnOK(t, fn, u, dr) ==
                       /\ (IF t.newline THEN u.col = 0 /\ ~u.pw
                           ELSE SameCursor(t, u) \/ (u.col = Min2(t.col, t.cols - 1) /\ ~u.pw))   \* silent: may a scrolling LF drop a pending wrap?
        [] f = "Nel" -> ScrollUpOK(t, u, t.top, t.bottom, 1, dr) /\ u.col = 0 /\ ~u.pw /\ u.row = t.row
-       [] f = "Ri" -> ScrollDownOK(t, u, t.top, t.bottom, 1, dr) /\ SameCursor(t, u)  \* on the top margin
+       [] f = "Ri" -> ScrollDownOK(t, u, t.top, t.bottom, 1, dr)                     \* on the top margin
+                      /\ (SameCursor(t, u) \/ (u.row = t.row /\ u.col = Min2(t.col, t.cols - 1) /\ ~u.pw))   \* silent: may a scrolling RI drop a pending wrap?
 
 \* ------------------------------------------------------------------------ C04
 (* One printable character.                                                      *)
